@@ -35,7 +35,7 @@ impl Property for C13 {
         vec!["answers compared as rendered strings (constraints sorted)".into()]
     }
     fn cases_per_shard(&self, tier: Tier) -> u32 {
-        tier.pick(120, 2500)
+        tier.pick(600, 6000)
     }
     fn decode(&self, t: &mut Tape, _tier: Tier) -> Case {
         let cfg = if t.chance(55) { GenCfg::horn_auto() } else { GenCfg::horn() };
@@ -143,11 +143,20 @@ impl Property for C13 {
             let impl_order: Vec<usize> = case.order.iter().filter(|(k, _)| *k == 2).map(|(_, i)| *i).collect();
             impl_order.windows(2).any(|w| w[0] > w[1]) || case.pg.program.impls.iter().zip(&case.inner.impls).any(|(a, b)| a.wcs != b.wcs) || case.pg.program.traits.iter().zip(&case.inner.traits).any(|(a, b)| a.supers != b.supers)
         };
+        let ng = non_growing(&case.pg.program);
+        let fin = finite_answers(&case.pg.program);
         for (gi, g) in case.pg.goals.iter().enumerate() {
             let lg = match &low.goals[gi] {
                 Some(x) => x,
                 None => continue,
             };
+            // "within the solver's size limits": derivations are size-bounded by the goal (non-growing
+            // where-clauses) and, for goals with unknowns, answers cannot grow (no constructor applied to a
+            // parameter in an impl header); otherwise truncation may legitimately depend on clause order
+            if !ng || (!goal_is_closed(g) && !fin) {
+                out.bump("goal_may_exceed_size_limits(not judged)");
+                continue;
+            }
             let ppeeled = match chalk_integration::tls::set_current_program(&pprog, || catch(|| parse_and_peel(&pprog, &lg.text))) {
                 Ok(Ok(p)) => p,
                 _ => {
@@ -181,10 +190,10 @@ impl Property for C13 {
                 };
                 if a != b {
                     let st = crate::refsem::solution_sets(&case.pg.program, g, 2, 50).st;
-                    let co = if st.co_cycle { ":coinductive-cycle" } else { "" };
-                    let rep = "";
+                    let dc = super::c10::diff_class(&a, &b);
+                    let co = if st.co_cycle && !dc.contains("repeated-var") { ":coinductive-cycle" } else { "" };
                     out.fail(
-                        format!("{}:order-differs:{}{}{}", sv.name(), super::c10::diff_class(&a, &b), rep, co),
+                        format!("{}:order-differs:{}{}", sv.name(), dc, co),
                         format!("[{}] goal `{}`: original program gives `{}`, permuted program gives `{}`\n--- original\n{}--- permuted\n{}", sv.name(), lg.text, a, b, low.text, ptext),
                     );
                     continue;
